@@ -13,5 +13,5 @@ if [ $RC -eq 1 ] && echo "$OUT" | grep -q "^VIOLATION property=$ID"; then
   echo "$OUT" | grep "violation " | head -3
   exit 0
 fi
-echo "DEMO $ID $(basename $PATCH): NOT DETECTED (rc=$RC)"; echo "$OUT" | tail -5
+echo "DEMO $ID $(basename $PATCH): NOT DETECTED (rc=$RC)"; echo "$OUT" > /tmp/demo-fail-$ID.log; echo "$OUT" | grep -v "^\s\|^goroutine" | tail -8
 exit 1
